@@ -374,17 +374,24 @@ Definition length_is (p : prof) (m : msg) (n : N) : bool :=
 
 Definition is_nil {A} (l : list A) : bool := match l with [] => true | _ => false end.
 
+(* what follows writes no byte at all (absent Options, empty blocks): the field in front of it still
+   sees the end of the reader -- consecutive absent trailing Options are covered this way *)
+Definition writes_nothing (p : prof) (l : list msg) : bool :=
+  match write_list p l with Some [] => true | _ => false end.
+Definition fields_write_nothing (p : prof) (fs : list (string * msg)) (skip : list string) : bool :=
+  match write_fields p fs skip with Some [] => true | _ => false end.
+
 (* The three loops of wf, abstracted over the checker of the elements ([wfr closed t m]);
    [wf] below instantiates [wfr] with itself, exactly as [read] does with its loops. *)
 Section WfLoops.
 Variable p : prof.
 Variable wfr : bool -> msg -> msg -> bool.
 
-(* l = written elements, tl = templates; only the last element inherits [closed] *)
+(* l = written elements, tl = templates; an element inherits [closed] when nothing is written after it *)
 Fixpoint wf_trame (closed : bool) (l tl : list msg) {struct l} : bool :=
   match l, tl with
   | [], [] => true
-  | x :: l', tx :: tl' => wfr (is_nil l' && closed) tx x && wf_trame closed l' tl'
+  | x :: l', tx :: tl' => wfr ((is_nil l' || writes_nothing p l') && closed) tx x && wf_trame closed l' tl'
   | _, _ => false
   end.
 
@@ -400,7 +407,8 @@ Fixpoint wf_fields (closed : bool) (fs tfs : list (string * msg)) (skip : list s
        else
          match dyn_lookup name dyn with
          | Some n => wfr true tv v && length_is p v n && (n <=? isize_max)
-         | None => wfr (is_nil fs' && closed) tv v
+         | None => wfr ((is_nil fs' || fields_write_nothing p fs'
+                                        (match options p v with OSkip f => f :: skip | _ => skip end)) && closed) tv v
          end &&
          match options p v with
          | OPanic => false
@@ -431,7 +439,7 @@ Fixpoint wf (p : prof) (closed : bool) (t m : msg) {struct m} : bool :=
       | [] => closed                                           (* read_to_end *)
       | _ :: _ => Nat.eqb (List.length tb) (List.length b)     (* fixed-size block *)
       end
-  | MTrame l, MTrame tl => wf_trame (wf p) closed l tl
+  | MTrame l, MTrame tl => wf_trame p (wf p) closed l tl
   | MComp fs, MComp tfs => wf_fields p (wf p) closed fs tfs [] []
   | MCheck v, MCheck tv => wf p closed tv v && check_eq tv v
   | MDyn v c, MDyn tv c' => clo_eqb c c' && wf p closed tv v
@@ -458,6 +466,20 @@ Proof.
   rewrite app_length in Hlt. lia.
 Qed.
 
+Lemma nothing_list p l bl : (is_nil l || writes_nothing p l) = true -> write_list p l = Some bl -> bl = [].
+Proof.
+  intros H Hw. destruct l as [|x l'].
+  - cbn [write_list] in Hw. inversion Hw; reflexivity.
+  - cbn [is_nil orb] in H. unfold writes_nothing in H. rewrite Hw in H. destruct bl; [reflexivity|discriminate].
+Qed.
+
+Lemma nothing_fields p fs sk bl : (is_nil fs || fields_write_nothing p fs sk) = true -> write_fields p fs sk = Some bl -> bl = [].
+Proof.
+  intros H Hw. destruct fs as [|x fs'].
+  - cbn [write_fields] in Hw. inversion Hw; reflexivity.
+  - cbn [is_nil orb] in H. unfold fields_write_nothing in H. rewrite Hw in H. destruct bl; [reflexivity|discriminate].
+Qed.
+
 Definition rw_ok (p : prof) (m : msg) : Prop :=
   forall t closed b rest,
     wf p closed t m = true -> write p m = Some b -> (closed = true -> rest = []) ->
@@ -465,7 +487,7 @@ Definition rw_ok (p : prof) (m : msg) : Prop :=
 
 Lemma rw_trame p l : Forall (rw_ok p) l ->
   forall tl closed b rest acc a,
-    wf_trame (wf p) closed l tl = true -> write_list p l = Some b -> (closed = true -> rest = []) ->
+    wf_trame p (wf p) closed l tl = true -> write_list p l = Some b -> (closed = true -> rest = []) ->
     exists a', read_trame (read p) tl (b ++ rest) acc a = ROk (MTrame (rev acc ++ l)) rest a'.
 Proof.
   induction l as [|x l' IH]; intros HF tl closed b rest acc a Hwf Hw Hc; destruct tl as [|tx tl'];
@@ -480,7 +502,7 @@ Proof.
     rewrite <- app_assoc.
     destruct (Hx tx _ bx (bl ++ rest) Hwx Hbx) as [ax Hrx].
     { intros Hcl. apply andb_true_iff in Hcl. destruct Hcl as [Hn Hcl].
-      destruct l'; [|discriminate]. cbn [write_list] in Hbl. inversion Hbl; subst bl. cbn [app]. apply Hc. exact Hcl. }
+      rewrite (nothing_list p l' bl Hn Hbl). cbn [app]. apply Hc. exact Hcl. }
     cbn [read_trame]. rewrite Hrx.
     destruct (IH Hl' tl' closed bl rest (x :: acc) (N.max a ax) Hwl eq_refl Hc) as [a' Hr].
     exists a'. rewrite Hr. cbn [rev]. rewrite <- app_assoc. reflexivity.
@@ -504,7 +526,8 @@ Proof.
       exists a'. rewrite Hr. cbn [rev]. rewrite <- app_assoc. reflexivity.
     + apply andb_true_iff in Hwf. destruct Hwf as [Hfield Hopts].
       destruct (write p v) as [bv|] eqn:Hbv; [|discriminate].
-      assert (Hrf : forall bl, (is_nil fs' = true -> bl = []) ->
+      remember (match options p v with OSkip f => f :: skip | _ => skip end) as skip' eqn:Eskip.
+      assert (Hrf : forall bl, ((is_nil fs' || fields_write_nothing p fs' skip') = true -> bl = []) ->
                 exists av, read_field (read p) tv (bv ++ bl ++ rest) (dyn_lookup name dyn) = ROk v (bl ++ rest) av).
       { intros bl Hbl. destruct (dyn_lookup name dyn) as [n|].
         - apply andb_true_iff in Hfield. destruct Hfield as [Hfield Hmax].
@@ -518,9 +541,9 @@ Proof.
         - unfold read_field. apply (Hv tv _ bv (bl ++ rest) Hfield Hbv).
           intros Hcl. apply andb_true_iff in Hcl. destruct Hcl as [Hnil Hcl].
           rewrite (Hbl Hnil), (Hc Hcl). reflexivity. }
-      assert (Hnil : forall sk bl, write_fields p fs' sk = Some bl -> is_nil fs' = true -> bl = []).
-      { intros sk bl Hbl Hnil. destruct fs'; [|discriminate]. cbn [write_fields] in Hbl. inversion Hbl; reflexivity. }
-      destruct (options p v) as [|f|f k|] eqn:Hopt; [| | |discriminate].
+      assert (Hnil : forall sk bl, write_fields p fs' sk = Some bl -> (is_nil fs' || fields_write_nothing p fs' sk) = true -> bl = []).
+      { intros sk bl Hbl Hnil. exact (nothing_fields p fs' sk bl Hnil Hbl). }
+      destruct (options p v) as [|f|f k|] eqn:Hopt; [| | |discriminate]; subst skip'.
       * destruct (write_fields p fs' skip) as [bl|] eqn:Hbl; [|discriminate]. inversion Hw; subst b. clear Hw.
         rewrite <- app_assoc. destruct (Hrf bl (Hnil skip bl Hbl)) as [av Hr]. rewrite Hr. cbv beta iota. rewrite Hopt.
         destruct (IH Hfs' tfs' closed skip dyn bl rest ((name, v) :: acc) (N.max a av) Hopts Hbl Hc) as [a' Hr'].
@@ -656,7 +679,7 @@ Definition wd_ok (p : prof) (m : msg) : Prop :=
   forall t closed, wf p closed t m = true -> exists b, write p m = Some b.
 
 Lemma wd_trame p l : Forall (wd_ok p) l ->
-  forall tl closed, wf_trame (wf p) closed l tl = true -> exists b, write_list p l = Some b.
+  forall tl closed, wf_trame p (wf p) closed l tl = true -> exists b, write_list p l = Some b.
 Proof.
   induction l as [|x l' IH]; intros HF tl closed Hwf; destruct tl as [|tx tl']; cbn [wf_trame] in Hwf; try discriminate.
   - eexists; reflexivity.
@@ -801,6 +824,14 @@ Example ex_opt_none_trailing : wf Debug true (MOpt (Some (MU16 LE 0))) (MOpt Non
 Proof. split; vm_compute; reflexivity. Qed.
 Example ex_opt_none_none : wf Debug false (MOpt None) (MOpt None) = true.
 Proof. reflexivity. Qed.
+
+(* consecutive absent trailing options (TS_UD_SC_CORE without its two optional fields): the first absent
+   one is followed by fields that write nothing *)
+Definition ex_two_opt_t := MComp [("a", MU8 0); ("b", MOpt (Some (MU16 LE 0))); ("c", MOpt (Some (MU32 LE 0)))].
+Definition ex_two_opt_m := MComp [("a", MU8 7); ("b", MOpt None); ("c", MOpt None)].
+Example ex_opt_two_absent : wf Debug true ex_two_opt_t ex_two_opt_m = true /\ roundtrips Debug ex_two_opt_t ex_two_opt_m [] = true
+                            /\ wf Debug false ex_two_opt_t ex_two_opt_m = false.
+Proof. repeat split; vm_compute; reflexivity. Qed.
 
 Definition ex_arr_t := MArray [] (Some (MU16 LE 0)).
 Definition ex_arr_m := MArray [MU16 LE 1; MU16 LE 2] (Some (MU16 LE 0)).
